@@ -42,7 +42,7 @@ func C08(ctx *Ctx) {
 	R := ctx.R
 	R.Explanation = "Step of both interpreters is abstractly interpreted in 256 opcodes x M,X,E x {no interrupt, each pending interrupt} cells with every other register, flag and memory byte symbolic. Each bus access event carries the interval of its address and of the dispatch-table index that selects the backend: the index must stay below 2^20 (address <= $FFFFFF) by interval arithmetic over type widths, shifts, masks and adds. No panic / fatal / possibly-out-of-range array index / imprecise step may be live in any cell (the nil-backend arms are excluded by the hypothesis 'whole bus mapped')."
 	R.Trusted = []string{"go/packages + go/ssa (x/tools v0.29.0)", "absint interval transfer functions", "flag bytes N V M X D I Z C E hold 0 or 1 (obligation flags01 of C01)", "memory back ends behind the bus are outside the hypothesis' boundary", "user callbacks (OnPC/OnWDM) do not panic"}
-	R.Rule("index", "every bus access of every Step cell uses a dispatch-table index whose interval is below 2^20, i.e. an address below 2^24")
+	R.Rule("index", "every bus access of every Step cell uses the dispatch-table slot (address>>4) of the very address it passes, and that index is below 2^20, i.e. the address below 2^24")
 	R.Rule("no-panic", "no panic, log.Fatal, possibly-out-of-range index, call through a possibly-nil callback or uninterpretable step is live in any Step cell; every cell returns")
 	R.Exhaustive = true
 	sw := cpuSweep(ctx)
@@ -65,6 +65,7 @@ func C08(ctx *Ctx) {
 		isa, _ := loadISA(ctx)
 		bad := map[string]*agg{}
 		okSites := map[string]*agg{}
+		misrouted := map[string]*agg{}
 		panics := map[string]*agg{}
 		nCallbacks := 0
 		for _, r := range sw.Results[rel] {
@@ -85,6 +86,24 @@ func C08(ctx *Ctx) {
 					key = site + ":via=" + v
 				}
 				viol := a.Index == nil || a.Index.Hi >= 1<<20 || a.Addr == nil || a.Addr.Hi > 0xFFFFFF
+				// routing: the table slot used is the one of the address handed to it (address>>4); a neighbouring
+				// slot is inside the table, too, but belongs to other memory
+				if !viol {
+					ro := absint.Ops{In: absint.NewInterner()}
+					ad := ro.Rebuild(a.Addr.Lin, nil)
+					want := ro.Convert(ro.Shr(ad, absint.NewConst(ad.W, 4, false), false), a.Index.W, false, a.Index.Signed)
+					ix := ro.Rebuild(a.Index.Lin, nil)
+					if ix.Lin.Key() != want.Lin.Key() && !absint.SameBits(ix, want) {
+						g := misrouted[key]
+						if g == nil {
+							g = &agg{ops: map[int]bool{}, pos: ctx.Prog.Pos(a.Pos)}
+							misrouted[key] = g
+						}
+						g.ops[r.Cell.Opcode] = true
+						g.n++
+						g.ex = fmt.Sprintf("cell %s: slot %s for address %s", r.Cell, trunc(a.Index.Lin.Key()), trunc(a.Addr.Lin.Key()))
+					}
+				}
 				tgt := okSites
 				if viol {
 					tgt = bad
@@ -157,8 +176,15 @@ func C08(ctx *Ctx) {
 			g := bad[k]
 			R.Add("index", k, g.pos, false, fmt.Sprintf("address may reach $%X (>= 2^24) for opcodes %s; e.g. %s", g.worst, opSet(g.ops), g.ex), nil)
 		}
+		for _, k := range keys(misrouted) {
+			g := misrouted[k]
+			R.Add("index", k+":route", g.pos, false, fmt.Sprintf("the dispatch slot is not (address>>4) of the address passed, for opcodes %s; e.g. %s", opSet(g.ops), g.ex), nil)
+		}
 		for _, k := range keys(okSites) {
 			if _, isBad := bad[k]; isBad {
+				continue
+			}
+			if _, isBad := misrouted[k]; isBad {
 				continue
 			}
 			g := okSites[k]
